@@ -19,6 +19,15 @@ def prepare(res, prop, cfgs=None, need_model=True):
         res.notes.append(g)
     except PrepareError as e:
         broken['translator'] = str(e)
+    try:
+        res.notes.append(gen_src())
+    except PrepareError as e:
+        # the source translation is part of the obligations of the properties tied to it; the other
+        # properties are checked against the last good translation
+        if prop in SRC_TIED:
+            broken['translator'] = str(e)
+        else:
+            res.notes.append('rs2coq failed (not part of this property): ' + str(e)[:200])
     th = None
     if 'translator' not in broken:
         th = check_theorems(prop)
